@@ -6,6 +6,7 @@ import (
 	"fmt"
 	"os"
 	"strings"
+	"sync"
 	"sync/atomic"
 
 	"github.com/bluenviron/gortsplib/v5/pkg/description"
@@ -24,8 +25,31 @@ import (
 // Logger forwards selected log lines (hook executions) into the observation trace.
 type Logger struct{ Hooks bool }
 
+// realLogger: in the free-running race pass (no exploration active) every log line of the server code goes
+// through the repository's real structured logger (file destination /dev/null), so that concurrent operations
+// also exercise the logger concurrently, as they do in a real server.
+var (
+	realLoggerOnce sync.Once
+	realLogger     *logger.Logger
+)
+
+func realLog(level logger.Level, format string, args ...any) {
+	realLoggerOnce.Do(func() {
+		l := &logger.Logger{Level: logger.Debug, Destinations: []logger.Destination{logger.DestinationFile}, Structured: true, File: os.DevNull}
+		if err := l.Initialize(); err == nil {
+			realLogger = l
+		}
+	})
+	if realLogger != nil {
+		realLogger.Log(level, format, args...)
+	}
+}
+
 // Log implements logger.Writer.
-func (l Logger) Log(_ logger.Level, format string, args ...any) {
+func (l Logger) Log(level logger.Level, format string, args ...any) {
+	if !vsched.Active() {
+		realLog(level, format, args...)
+	}
 	if !l.Hooks {
 		return
 	}
